@@ -17,7 +17,9 @@
 (*               terminating empty packet, FALSE writes it with a cancelled context (C13).         *)
 EXTENDS PQOps, TLC, Json
 
-CONSTANTS Bodies, MaxLen, MaxMsgs, MaxSteps, FIXED, GEN, ABORTS, RESETONERR, EOMCTX
+CONSTANTS Bodies, MaxLen, MaxMsgs, MaxSteps, FIXED, GEN, ABORTS, RESETONERR, EOMCTX, KEEPOPEN
+\* KEEPOPEN = TRUE is the code: Channel.Reset leaves txMsgOpen alone, so that a flush repeated after one that
+\* was given up still terminates the message on the wire; FALSE is the variant whose Reset clears it.
 
 VARIABLES q,        \* queueTx
           body,     \* packet body size in force (Conn.PacketBodySize())
@@ -28,14 +30,15 @@ VARIABLES q,        \* queueTx
           broken,   \* a call of the current message failed: the message is not judged
           abandoned,\* the previous message was given up by a failed flush (txOpen may be stale)
           cwrote,   \* packets written by calls that had a cancelled context
+          wopen,    \* packets reached the transport since the last EOM packet
           steps, hist
-vars == <<q, body, txOpen, wire, queued, done, broken, abandoned, cwrote, steps, hist>>
+vars == <<q, body, txOpen, wire, queued, done, broken, abandoned, cwrote, wopen, steps, hist>>
 
 H(e) == hist' = IF GEN THEN Append(hist, e) ELSE hist
 Step == steps < MaxSteps /\ steps' = steps + 1
 
 Init == /\ q = PQ_Empty /\ body \in Bodies /\ txOpen = FALSE /\ wire = <<>> /\ queued = 0
-        /\ done = <<>> /\ steps = 0 /\ hist = <<>> /\ broken = FALSE /\ abandoned = FALSE /\ cwrote = 0
+        /\ done = <<>> /\ steps = 0 /\ hist = <<>> /\ broken = FALSE /\ abandoned = FALSE /\ cwrote = 0 /\ wopen = FALSE
 
 \* sendPacket: EOM iff the data portion is not exactly one body
 Pkt(data) == [n |-> Len(data), len |-> 8 + Len(data), eom |-> Len(data) # body, bs |-> data]
@@ -50,6 +53,7 @@ SendLoop(x, i, onlyFull, acc) ==      \* i = 0-based packet index
          ELSE SendLoop(x, i + 1, onlyFull, Append(acc, Pkt(data)))
 Sent(x, onlyFull) == SendLoop(x, 0, onlyFull, <<>>)
 OpenAfter(ps, was) == IF ps = <<>> THEN was ELSE ~ps[Len(ps)].eom
+WOpenAfter(ps) == OpenAfter(ps, wopen)
 
 Queue(n) ==
     /\ Step /\ n \in 1..MaxLen /\ Len(done) < MaxMsgs
@@ -60,6 +64,7 @@ Queue(n) ==
           /\ wire' = wire \o ps
           /\ txOpen' = OpenAfter(ps, txOpen)
           /\ queued' = queued + n
+          /\ wopen' = WOpenAfter(ps)
           /\ H([op |-> "Queue", n |-> n, body |-> body, npk |-> Len(ps), ctx |-> ""])
     /\ UNCHANGED <<body, done, broken, abandoned, cwrote>>
 
@@ -71,6 +76,7 @@ Flush ==
        IN /\ wire' = <<>>
           /\ done' = IF broken THEN done ELSE Append(done, [total |-> queued, body |-> body, wire |-> wire \o ps2])
           /\ txOpen' = IF FIXED THEN FALSE ELSE open1
+          /\ wopen' = WOpenAfter(ps2)
           /\ H([op |-> "Flush", n |-> 0, body |-> body, npk |-> Len(ps2), ctx |-> ""])
     /\ q' = PQ_Empty /\ queued' = 0              \* SendRemainingPackets: defer Reset()
     /\ broken' = FALSE /\ abandoned' = FALSE
@@ -86,7 +92,7 @@ QueueAbort(n) ==
        IN q' = PQ_Discard(q1)
     /\ queued' = queued + n /\ broken' = TRUE
     /\ H([op |-> "Queue", n |-> n, body |-> body, npk |-> 0, ctx |-> "cancelled"])
-    /\ UNCHANGED <<body, txOpen, wire, done, abandoned, cwrote>>
+    /\ UNCHANGED <<body, txOpen, wire, done, abandoned, cwrote, wopen>>
 
 \* SendRemainingPackets with a cancelled context
 FlushAbort ==
@@ -95,7 +101,8 @@ FlushAbort ==
            ps == IF ~err /\ FIXED /\ txOpen THEN <<[n |-> 0, len |-> 8, eom |-> TRUE, bs |-> <<>>]>> ELSE <<>>
        IN /\ cwrote' = cwrote + Len(ps)
           /\ done' = IF err \/ broken THEN done ELSE Append(done, [total |-> queued, body |-> body, wire |-> wire \o ps])
-          /\ txOpen' = IF ps # <<>> THEN FALSE ELSE txOpen
+          /\ txOpen' = IF ps # <<>> THEN FALSE ELSE IF err /\ ~KEEPOPEN THEN FALSE ELSE txOpen
+          /\ wopen' = WOpenAfter(ps)
           /\ abandoned' = err
           /\ q' = IF err /\ ~RESETONERR THEN PQ_Discard(q) ELSE PQ_Empty
           /\ H([op |-> "Flush", n |-> 0, body |-> body, npk |-> Len(ps), ctx |-> "cancelled"])
@@ -106,7 +113,7 @@ FlushAbort ==
 SizeChange(b) ==
     /\ Step /\ queued = 0 /\ b \in Bodies /\ b # body
     /\ body' = b /\ H([op |-> "Size", n |-> 0, body |-> b, npk |-> 0, ctx |-> ""])
-    /\ UNCHANGED <<q, txOpen, wire, queued, done, broken, abandoned, cwrote>>
+    /\ UNCHANGED <<q, txOpen, wire, queued, done, broken, abandoned, cwrote, wopen>>
 
 Next == (\E n \in 1..MaxLen : Queue(n) \/ QueueAbort(n)) \/ Flush \/ FlushAbort \/ (\E b \in Bodies : SizeChange(b))
 Spec == Init /\ [][Next]_vars
@@ -126,9 +133,11 @@ C01_AllButLastFull == \A i \in 1..Len(wire) : ~wire[i].eom /\ wire[i].n = body  
 C01_NothingLeftBehind == queued = 0 => (q = PQ_Empty /\ wire = <<>> /\ (FIXED /\ ~abandoned => ~txOpen))
 \* C13: a send with a cancelled context writes nothing
 C13_CancelledWritesNothing == cwrote = 0
+\* a successful flush leaves no message open on the wire, also not one whose first flush was given up
+C01_FlushTerminates == (FIXED /\ queued = 0 /\ ~abandoned /\ ~broken) => ~wopen
 \* sizes never exceed the packet size in force (checked on open messages; completed ones by MsgOK + full)
 C01_SizeBound == \A i \in 1..Len(wire) : wire[i].len <= 8 + body
 
 GenPrint == (GEN /\ (steps = MaxSteps \/ Len(done) = MaxMsgs)) => PrintT(<<"SCN", ToJson(hist)>>)
-View == <<q, body, txOpen, wire, queued, done, broken, abandoned, cwrote, steps>>
+View == <<q, body, txOpen, wire, queued, done, broken, abandoned, cwrote, wopen, steps>>
 =============================================================================
